@@ -68,6 +68,9 @@ class VecSpec:
     uses_ex: bool = False                                  # the exponential is needed (a logarithm written out as a real)
     lsum: str = "lsum"                                    # name of the sum primitive in the target namespace
     vec_calls: Dict[str, str] = field(default_factory=dict)   # python callee of two vectors -> Lean binary operator (elementwise)
+    given: Dict[str, Tuple[str, Dict[str, Tuple[str, str]]]] = field(default_factory=dict)
+    # test text of a leading `if` whose WHOLE statement is pinned by sha256 (first 16 hex digits of its unparsed text) and replaced by
+    # parameters: {local name: (type, lean name)} (declared in extra_binders) — the part of a function another model is about
     real_fns: Dict[str, str] = field(default_factory=dict)    # np.sqrt / np.abs -> name of an uninterpreted K → K parameter (extra_binders)
 
 
@@ -142,11 +145,37 @@ class _V:
                 return VLOG, f"{env[e.value.id][1]}.{k + 1}"
             self.fail(e, "column of something that is not a declared record array")
         if isinstance(e, ast.Call) and ast.unparse(e.func) == "np.concatenate" and len(e.args) == 1 and isinstance(e.args[0], ast.List) \
-                and len(e.args[0].elts) == 2 and not e.keywords:
-            (ta, a), (tb, b) = self.expr(e.args[0].elts[0], env), self.expr(e.args[0].elts[1], env)
-            if ta == VLOG and tb == VLOG:
-                return VLOG, f"({a} ++ {b})"
-            self.fail(e, "np.concatenate of something else than two log vectors")
+                and len(e.args[0].elts) >= 2 and not e.keywords:
+            parts = [self.expr(x, env) for x in e.args[0].elts]
+            if all(t == VLOG for t, _ in parts):
+                return VLOG, "(" + " ++ ".join(v for _, v in parts) + ")"
+            self.fail(e, "np.concatenate of something else than log vectors")
+        if isinstance(e, ast.Call) and ast.unparse(e.func) == "len" and len(e.args) == 1 and isinstance(e.args[0], ast.Name) \
+                and env.get(e.args[0].id, ("",))[0] in (VLOG, VLIN):
+            return NAT, f"{env[e.args[0].id][1]}.length"
+        if isinstance(e, ast.BinOp) and isinstance(e.op, ast.Add) and isinstance(e.right, ast.Constant) and isinstance(e.right.value, int) \
+                and not isinstance(e.right.value, bool):
+            try:
+                t, v = self.expr(e.left, env)
+            except TranslationError:
+                t = None
+            if t == NAT:
+                return NAT, f"({v} + {e.right.value})"
+        if isinstance(e, ast.Call) and ast.unparse(e.func) == "np.zeros" and len(e.args) == 1 and not e.keywords:
+            t, v = self.expr(e.args[0], env)
+            if t == NAT:
+                return VLOG, f"(List.replicate {v} 1)"           # a vector of log-values 0: the reals 1
+            self.fail(e, "np.zeros of something that is not a count")
+        if isinstance(e, ast.Call) and ast.unparse(e.func) == "np.cumsum" and len(e.args) == 1 and not e.keywords:
+            t, v = self.expr(e.args[0], env)
+            if t == VLOG:
+                return VLOG, f"(cumprodFrom 1 {v})"
+            self.fail(e, "np.cumsum of something that is not a log vector")
+        if isinstance(e, ast.List) and e.elts:
+            parts = [self.expr(x, env) for x in e.elts]
+            if all(t == LOG for t, _ in parts):
+                return VLOG, "[" + ", ".join(v for _, v in parts) + "]"
+            self.fail(e, "list literal of something else than log-domain scalars")
         if isinstance(e, ast.Call) and ast.unparse(e.func) == "len" and len(e.args) == 1 and isinstance(e.args[0], ast.Name) \
                 and e.args[0].id in sp.rec_params:
             return NAT, f"{sp.rec_params[e.args[0].id][0]}.length"       # a record array has one row per entry of its columns
@@ -332,6 +361,11 @@ class _V:
             for attr, (ln, ty) in self.spec.self_attrs.items():
                 if ty == STR and left == f"self.{attr}.lower()":
                     return f'{ln} = "{c.comparators[0].value}"'   # `ln` stands for the lower-cased option
+        if isinstance(c, ast.Compare) and len(c.ops) == 1 and isinstance(c.ops[0], ast.Eq) and isinstance(c.left, ast.Call) \
+                and isinstance(c.left.func, ast.Attribute) and c.left.func.attr == "lower" and not c.left.args \
+                and isinstance(c.left.func.value, ast.Name) and env.get(c.left.func.value.id, ("",))[0] == STR \
+                and isinstance(c.comparators[0], ast.Constant) and isinstance(c.comparators[0].value, str):
+            return f'{env[c.left.func.value.id][1]} = "{c.comparators[0].value}"'     # the binder stands for the lower-cased option
         if isinstance(c, ast.Compare) and len(c.ops) == 1 and isinstance(c.left, ast.Name) and env.get(c.left.id, ("",))[0] == STR:
             v = env[c.left.id][1]
             r = c.comparators[0]
@@ -409,6 +443,30 @@ class _V:
             env2 = dict(env)
             env2[st.target.id] = (t, ln)
             return f"{pad}let {ln} : {LEAN_TY[t]} := {v}\n" + self.block(rest, env2, ind)
+        if isinstance(st, ast.Assign) and len(st.targets) == 1 and isinstance(st.targets[0], ast.Subscript) \
+                and isinstance(st.targets[0].value, ast.Name) and env.get(st.targets[0].value.id, ("",))[0] == VLOG:
+            name = st.targets[0].value.id
+            sl = ast.unparse(st.targets[0].slice)
+            t, v = self.expr(st.value, env)
+            if sl == "1:-1" and t == VLOG:
+                new = f"(setInner {env[name][1]} {v})"
+            elif sl == "-1" and t == LOG:
+                new = f"({env[name][1]}.dropLast ++ [{v}])"
+            else:
+                self.fail(st, "item / slice assignment outside the fragment")
+            ln = self.fresh(name)
+            env2 = dict(env)
+            env2[name] = (VLOG, ln)
+            return f"{pad}let {ln} : List K := {new}\n" + self.block(rest, env2, ind)
+        if isinstance(st, ast.If) and ast.unparse(st.test) in self.spec.given:
+            sha, binds = self.spec.given[ast.unparse(st.test)]
+            got = hashlib.sha256(ast.unparse(st).encode()).hexdigest()[:16]
+            if got != sha:
+                self.fail(st, f"the statement handed to another model changed (sha256 {got}, pinned {sha})")
+            env2 = dict(env)
+            for py, (ty, ln) in binds.items():
+                env2[py] = (ty, ln)
+            return self.block(rest, env2, ind)
         if isinstance(st, ast.If):
             test = ast.unparse(st.test)
             # an arm that belongs to another model (declared): dropped, its exact text pinned
